@@ -81,7 +81,7 @@ func TestProp(t *testing.T) {
 		go func() {
 			defer cbDone.Done()
 			t3 := time.Now()
-			vh.ForEach(lrCases, 4, only, func(k int) { runLongRun(rep, env, k, lrSeals) })
+			vh.ForEach(lrCases, env.Pick(4, 8), only, func(k int) { runLongRun(rep, env, k, lrSeals) })
 			lrWall = time.Since(t3).Seconds()
 		}()
 	}
